@@ -222,6 +222,41 @@ def gen_scenario(rng):
     return dict(t="frame_reuse", cls=cls.__name__, header=hdr, init=init, steps=steps)
 
 
+CODEC_KINDS = ("ProgramVersionResponse", "DeviceAvailableResponse")   # both an encoder and a decoder
+# C03 ("building from data and then decoding returns the same data") judges the DATA read from a re-used object whose
+# content was last defined by a message; C02 speaks about the bytes only (harness/c03.py switches this on)
+JUDGE_DATA = False
+
+
+def gen_codec_scenario(rng):
+    """the two kinds that can be built from data AND decoded: sequences in which a MESSAGE is set on an object that holds
+    (cached) data and the data is read afterwards — "set message, read data", "set data, read message, set message, read
+    data, read bytes", and the in-place update of the data read after a message was set (`frame.data |= …`).  The data read
+    must be the decoding of the message last set (C03: data -> message -> data on ONE object; C02: the bytes after the
+    update carry the decoded fields with exactly the update applied)."""
+    cls = _BY_NAME[rng.choice(CODEC_KINDS)]
+    hdr = dict(recipient=int(rng.choice(list(DeviceType))), sender=int(rng.choice(list(DeviceType))),
+               econet_type=rng.choice([48, rng.randrange(256)]), econet_version=rng.choice([5, rng.randrange(256)]))
+    shape = rng.randrange(5)
+    msg = lambda: _some_message(rng, cls, hdr)  # noqa: E731
+    if shape == 0:
+        init = dict(message=None, data=_rand_jdata(rng, cls))
+        steps = [["set_message", msg()], ["read_data"]]
+    elif shape == 1:
+        init = rng.choice([dict(message=None, data=None), dict(message=msg(), data=None)])
+        steps = [["set_new", _rand_jdata(rng, cls)], ["read_message"], ["set_message", msg()], ["read_data"], ["read"]]
+    elif shape == 2:
+        init = dict(message=None, data=_rand_jdata(rng, cls))
+        steps = [["read"], ["set_message", msg()], ["set_ior", {}], ["read"]]
+    elif shape == 3:
+        init = dict(message=msg(), data=None)
+        steps = [["read_data"], ["set_message", msg()], ["read_data"], ["set_message", msg()], ["len"], ["read_data"]]
+    else:
+        init = dict(message=None, data=_rand_jdata(rng, cls))
+        steps = [["read_data"], ["set_message", msg()], ["read"], ["read_data"], ["set_new", _rand_jdata(rng, cls)], ["read_data"], ["read"]]
+    return dict(t="frame_reuse", cls=cls.__name__, header=hdr, init=init, steps=steps)
+
+
 def _some_message(rng, cls, hdr):
     m = bytes(cls(data=_to_py(_rand_jdata(rng, cls)), sender=DeviceType(hdr["sender"])).message)
     if rng.random() < 0.4:
@@ -240,6 +275,14 @@ def _observe(f):
         return dict(bytes=b.hex(), length=len(f), header_len=int.from_bytes(b[1:3], "little"), message=bytes(f.message).hex())
     except Exception as e:  # noqa: BLE001
         return dict(raised=_err_word(e, "b"))
+
+
+def _observe_data(f):
+    """what `.data` of a frame of a kind with a decoder reads (the dict as a word, or the exception class)"""
+    try:
+        return "d:" + _dict_word(f.data)
+    except Exception as e:  # noqa: BLE001
+        return _err_word(e, "gd")
 
 
 def run_scenario(sc, writer=None):
@@ -316,6 +359,15 @@ def run_scenario(sc, writer=None):
             if got:
                 merged = dict(got[0])
                 merged.update(d)
+                want_merged = merged
+                if final[0] == "message" and sc["cls"] in CODEC_KINDS:
+                    # the fields the frame was GIVEN are those of the message last set: the update applies to ITS decoding
+                    # (computed on a fresh frame, not taken from what the re-used object's getter answered)
+                    try:
+                        want_merged = dict(cls(message=bytearray(final[1]), **kw).data)
+                        want_merged.update(d)
+                    except Exception:  # noqa: BLE001
+                        want_merged = merged
 
                 def setter(d=d):
                     f.data |= d          # getter (cached by now), in-place update, setter with the same dict
@@ -323,7 +375,7 @@ def run_scenario(sc, writer=None):
                 ops.append("gd")
                 words.append("d:" + _dict_word(got[0]))
                 do("sd=" + _dict_word(merged), setter)
-                final = ("pydata", merged)
+                final = ("pydata", want_merged)
         elif op == "set_message":
             m = bytes.fromhex(st[1])
 
@@ -363,7 +415,14 @@ def run_scenario(sc, writer=None):
         fresh = cls(message=bytearray(final[1]), **kw)
     else:
         fresh = cls(**ikw) if init["data"] is None else cls(**dict(ikw, data=_to_py(init["data"])))
+    by_message = JUDGE_DATA and (final[0] == "message" or (final[0] == "init" and init["message"] is not None))
+    if sc["cls"] in CODEC_KINDS and by_message:
+        # the kinds with a decoder, content last defined by a MESSAGE: the data of the re-used object is the data of a fresh frame built from the final content
+        # (after a message was set: the DECODING of that message), read BEFORE the bytes so that nothing is cached yet
+        gd, wd = _observe_data(f), _observe_data(fresh)
     got, want = _observe(f), _observe(fresh)
+    if sc["cls"] in CODEC_KINDS and by_message:
+        got["data"], want["data"] = gd, wd
     if "sender" in hdr_set and sc["cls"] == "ProgramVersionResponse":
         # the payload of this kind carries the sender's address and is cached: what "built from the final content" means
         # for it after a sender assignment is the frame-object model's business (oracle 1), not the fresh frame's
@@ -408,7 +467,12 @@ def frame_scenarios(res, scenarios, writer=None):
                      ("operation %d of a sequence on ONE frame object written / queued several times: what reached the transport is not the "
                       "envelope of the fields the frame had at the time of THAT write (C02.written_reflects_last_content)" % k))
         # oracle 2: a fresh frame built from the final content
-        if got != want:
+        if got != want and {k: v for k, v in got.items() if k != "data"} == {k: v for k, v in want.items() if k != "data"}:
+            res.fail("spec", sc, want, got,
+                     "the data read from a frame object after its message was last set is not the decoding of THAT message "
+                     "(differs from a fresh frame built from the final content; C03: data -> message -> data, "
+                     "TieFrameObj.Frame_run_sim / Obj.step setMessage clears the cached data)")
+        elif got != want:
             res.fail("spec", sc, want, got,
                      "a frame that was serialised, updated through its setters / header attributes and serialised again does not carry "
                      "exactly the fields it was last given (differs from a fresh frame built from them; C02.bytes_reflect_last_content_hdr)")
@@ -420,6 +484,9 @@ def frame_reuse(res, rng, n):
     """n scenarios; returns nothing, records into res"""
     check_plain_kinds(res)
     frame_scenarios(res, [gen_scenario(rng) for _ in range(n)])
+    # the kinds with both an encoder and a decoder: message set on an object that holds data, data read afterwards
+    crng = random.Random(rng.random())
+    frame_scenarios(res, [gen_codec_scenario(crng) for _ in range(max(40, n // 8))])
 
 
 # ---------------------------------------------------------------- data types -------------
